@@ -172,6 +172,7 @@ Non-trivial: payload ≥ 12 bytes; distinct = distinct query lines."
             let extra = rng.bytes(ne_);
             stream.extend_from_slice(&extra);
             let mut cur = Cursor::new(&stream);
+            w.pre(&format!("readmsg {}", hex(&stream)));
             let rd = guarded(|| Codec::new().read_message(&mut cur));
             let impr = match &rd { Ok(Ok(m2)) => format!("{} rest={} alloc={}", desc_msg(m2), stream.len() as u64 - cur.position(), enc.len()), Ok(Err(_)) => "ERR".into(), Err(()) => "PANIC".into() };
             let l4 = w.case(&format!("readmsg {}", hex(&stream)), &impr, nt);
@@ -182,6 +183,7 @@ Non-trivial: payload ≥ 12 bytes; distinct = distinct query lines."
             if i % 3 == 0 {
                 let mm = mutate(&mut rng, &framed);
                 let mut cur = Cursor::new(&mm);
+                w.pre(&format!("readmsg {}", hex(&mm)));
                 let rd = guarded(|| Codec::new().read_message(&mut cur));
                 let plen = if mm.len() >= 8 { u32::from_le_bytes([mm[4], mm[5], mm[6], mm[7]]) } else { 0 };
                 let impr = match &rd { Ok(Ok(m2)) => format!("{} rest={} alloc={}", desc_msg(m2), mm.len() as u64 - cur.position(), plen), Ok(Err(_)) => "ERR".into(), Err(()) => "PANIC".into() };
@@ -193,6 +195,7 @@ Non-trivial: payload ≥ 12 bytes; distinct = distinct query lines."
         // mutated payload through the message decoder
         for _ in 0..2 {
             let mm = mutate(&mut rng, &enc);
+            w.pre(&format!("msgdec {}", hex(&mm)));
             let d = guarded(|| Message::decode(&mm));
             let imp = match &d { Ok(Ok(m2)) => desc_msg(m2), Ok(Err(_)) => "ERR".into(), Err(()) => "PANIC".into() };
             let l6 = w.case(&format!("msgdec {}", hex(&mm)), &imp, nt);
@@ -214,11 +217,13 @@ Non-trivial: payload ≥ 12 bytes; distinct = distinct query lines."
         w.case(&format!("deltaenc {}", hex(&ed)), &hex(&ed), true);
         for _ in 0..2 {
             let ms = mutate(&mut rng, &es);
+            w.pre(&format!("sigdec {}", hex(&ms)));
             let r = guarded(|| bincode::deserialize::<Signature>(&ms));
             let imp = match &r { Ok(Ok(x)) => desc_sig(x), Ok(Err(_)) => "ERR".into(), Err(()) => "PANIC".into() };
             let l = w.case(&format!("sigdec {}", hex(&ms)), &imp, true);
             if r.is_err() { w.fail(l, "decode-panic", "Signature deserialize panicked"); }
             let md = mutate(&mut rng, &ed);
+            w.pre(&format!("deltadec {}", hex(&md)));
             let r = guarded(|| bincode::deserialize::<Delta>(&md));
             let imp = match &r { Ok(Ok(x)) => desc_delta(x), Ok(Err(_)) => "ERR".into(), Err(()) => "PANIC".into() };
             let l = w.case(&format!("deltadec {}", hex(&md)), &imp, true);
@@ -244,7 +249,8 @@ Non-trivial: payload ≥ 12 bytes; distinct = distinct query lines."
                     let l = w.case(&format!("clifront delta {}", hex(&bytes)), imp, true);
                     w.count("cli-delta");
                     if code.is_none() { w.fail(l, "cli-delta-signal", &format!("copia delta died by signal on signature file variant {name}: {}", err.lines().next().unwrap_or(""))); }
-                    if name == "valid" && code != Some(0) { w.fail(l, "cli-delta-valid-rejected", "copia delta rejected a valid signature file"); }
+                    if code == Some(-999) { w.fail(l, "cli-delta-hang", &format!("copia delta did not terminate within 30 s on signature file variant {name}")); }
+                    if name == "valid" && code != Some(0) && code != Some(-998) { w.fail(l, "cli-delta-valid-rejected", "copia delta rejected a valid signature file"); }
                 }
                 // absurd counts: raw byte-level corruption of the length fields
                 let raw = bincode::serialize(&vs).expect("ser");
@@ -265,14 +271,21 @@ Non-trivial: payload ≥ 12 bytes; distinct = distinct query lines."
                 for bs in [0u32, 1, 1000, 131072, u32::MAX] { let mut x = dd.clone(); x.block_size = bs; dvars.push((format!("bs={bs}"), x)); }
                 { let mut x = dd.clone(); x.source_size = u64::MAX; dvars.push(("source_size=max".into(), x)); }
                 { let mut x = dd.clone(); x.basis_size = 0; dvars.push(("basis_size=0".into(), x)); }
+                // hostile: lies about basis_size AND copies past the real end of the basis file
+                { let mut x = dd.clone(); x.basis_size = u64::MAX; x.ops.insert(0, DeltaOp::Copy { offset: basis.len() as u64 - 10, len: 100 }); dvars.push(("copy-past-real-end".into(), x)); }
+                { let mut x = dd.clone(); x.basis_size = 1 << 40; x.ops.push(DeltaOp::Copy { offset: 1 << 39, len: 4096 }); dvars.push(("copy-far-past-end".into(), x)); }
+                // a genuine delta against a truncated basis (every copy that reaches past the cut must be an error)
+                dvars.push(("valid-delta-truncated-basis".into(), dd.clone()));
                 for (name, dv) in &dvars {
                     let bytes = bincode::serialize(dv).expect("ser");
                     std::fs::write(f("delta"), &bytes).ok();
+                    if name == "valid-delta-truncated-basis" { std::fs::write(f("basis"), &basis[..basis.len() / 3]).ok(); }
                     let (code, err) = c.run(&["patch", &f("basis"), &f("delta"), "-o", &f("out")]);
                     let l = w.case(&format!("clifront patch {}", hex(&bytes)), if code.is_none() { "signal" } else { "nosignal" }, true);
                     w.count("cli-patch");
                     if code.is_none() { w.fail(l, "cli-patch-signal", &format!("copia patch died by signal on delta file variant {name}: {}", err.lines().next().unwrap_or(""))); }
-                    if name == "valid" && code != Some(0) { w.fail(l, "cli-patch-valid-rejected", "copia patch rejected a valid delta file"); }
+                    if code == Some(-999) { w.fail(l, "cli-patch-hang", &format!("copia patch did not terminate within 30 s on delta file variant {name}")); }
+                    if name == "valid" && code != Some(0) && code != Some(-998) { w.fail(l, "cli-patch-valid-rejected", "copia patch rejected a valid delta file"); }
                 }
             }
         }
